@@ -21,7 +21,7 @@ MkInput(ptr, vis, marks, emarks, ditem, dlines) ==
                                   Field("g", "priv", <<>>, TNm("u32"), 8, FALSE)>>)
               EXCEPT !.doc = dd("type"), !.copyable = marks.copy, !.cloneable = marks.clone,
                      !.defaultable = marks.dflt, !.packed = marks.packed,
-                     !.align = IF marks.packed THEN None ELSE 4]
+                     !.align = IF marks.packed THEN None ELSE 4, !.singleton = 65536]
       V == [TypeDef("V", vis.t, <<Field("w", "pub", <<>>, TCPtr(TNm("u8")), None, FALSE)>>)
               EXCEPT !.doc = dd("vtype"),
                      !.vft = Vft(2, <<Func("vf", vis.vf, dd("vfunc"), <<ArgM>>, TNone, None, None, "")>>)]
@@ -30,7 +30,8 @@ MkInput(ptr, vis, marks, emarks, ditem, dlines) ==
       DV == TypeDef("DV", "pub", <<Field("v", "pub", <<>>, TNm("V"), None, TRUE),
                                    Field("k", "pub", <<>>, TCPtr(TNm("u8")), None, FALSE)>>)
       E == [EnumDef("E", vis.e, TNm("u16"), <<Variant("A", NumNone, emarks.dflt), Variant("B", NumNone, FALSE)>>)
-              EXCEPT !.doc = dd("enum"), !.copyable = emarks.copy, !.cloneable = emarks.clone, !.defaultable = emarks.dflt]
+              EXCEPT !.doc = dd("enum"), !.copyable = emarks.copy, !.cloneable = emarks.clone, !.defaultable = emarks.dflt,
+                     !.singleton = IF emarks.copy THEN 131072 ELSE None]
       h == Func("h", vis.h, dd("fn"), <<ArgC>>, TNm("u32"), 4096, None, "")
       m == [Module(<<"m">>, <<>>, <<T, V, D, DV, E>>)
               EXCEPT !.doc = dd("module"), !.impls = <<Impl("T", <<h>>)>>,
@@ -46,7 +47,7 @@ NoEMarks == [copy |-> FALSE, clone |-> FALSE, dflt |-> FALSE]
 
 MCInit ==
   /\ \E ptr \in Ptrs :
-       \/ \E vis \in AllVis : input = MkInput(ptr, vis, NoMarks, NoEMarks, "none", <<>>)
+       \/ \E vis \in AllVis : input = MkInput(ptr, vis, NoMarks, [NoEMarks EXCEPT !.copy = TRUE], "none", <<>>)
        \/ \E marks \in AllMarks, emarks \in AllEMarks : input = MkInput(ptr, DefaultVis, marks, emarks, "none", <<>>)
        \/ \E ditem \in DocItems, dl \in DocSeqs : input = MkInput(ptr, DefaultVis, NoMarks, NoEMarks, ditem, dl)
   /\ InitRest
@@ -120,5 +121,5 @@ ReplayRecord ==
    mirror |-> [reg |-> RegView, out |-> out]]
 
 Replay == Terminal => PrintT(<<"REPLAY", ToJson(ReplayRecord)>>)
-View == <<input, phase, added, mods, reg, start, todo, err, out>>
+View == StdView
 =============================================================================
